@@ -6,7 +6,8 @@ COMMON_TB = []
 PROPS = {
     "C09": {
         "module": "Rl.Props.C09",
-        "targets": [{"name": "hist", "gen": "hist", "header_tokens": 5}],
+        "targets": [{"name": "hist", "gen": "hist", "header_tokens": 5},
+                    {"name": "hint", "gen": "hint", "header_tokens": 7}],
         "shards": {"quick": 8, "thorough": 16},
         "trivial_impl_regex": r"",
         "rule": "exhaustive: every sequence of <=3 (thorough: <=4) store mutators (add x6 lines incl. empty/blank-led/"
@@ -14,7 +15,14 @@ PROPS = {
                 "alternating MemHistory/FileHistory, `dump` after every step and the full probe battery at the end "
                 "(len, get 0..4, search/starts_with x 8 terms x start 0..4 x both directions); plus random sequences "
                 "(<=30, thorough <=60 ops) over a richer alphabet. distinct = hash of the request; every request "
-                "contains state-changing ops and probes, so all distinct requests are counted non-trivial.",
+                "contains state-changing ops and probes, so all distinct requests are counted non-trivial. "
+                "hint: HistoryHinter::hint(line, pos, Context::new(&history)) over MemHistory/FileHistory filled with add: "
+                "exhaustive entry lists (<=2 entries over all texts of length <=2 (thorough <=3) over {a,b,e-acute}, 3-4 entries over "
+                "a pool of 5 overlapping prefixes) x 15 lines x cursor at the end (every 4th case also before the end, past the "
+                "end, inside a character) x 4 store configurations (quick: in rotation); plus random lists (<=8, thorough <=12 "
+                "entries, 1-4 byte characters, blank-led, repeated and extended entries, limits 0..100), the line mostly a "
+                "prefix of an entry. Spec column: the declarative hint (Rl.Spec.hint) over the declarative store; no oracle "
+                "when the cursor is past the end of the line (outside the documented use; the slice may panic there).",
         "exhaustive": {"quick": True, "thorough": True},
         "trusted_base": [
             "str::find modelled as naive first-match search (Rl.findSub); agreement is part of this correspondence",
@@ -89,8 +97,8 @@ PROPS = {
             "the pty line discipline in raw mode passes bytes through unchanged; one read() returns everything queued (<= 1024)",
             "ESC ESC: poll(100 ms) is modelled as 'the next key press arrives within the window' (the harness delivers it as soon as the reader blocks)",
             "SIGWINCH / SIGTSTP / real select-poll timing are exercised by the harness only (thorough tier), not proved"],
-        "unproved": ["C17_editor_no_panic_statement (as written not provable: completer start off a boundary, D43; proved with strengthened hypotheses: C17_editor_no_panic_emacs unconditionally, C17_editor_no_panic for both modes)", "ViPreKeeps (the vi-mode hypothesis of C17_editor_no_panic: the dispatch loop keeps the undo-log invariant; proved in emacs mode only)"],
-        "level_text": "EMACS MODE, UNCONDITIONAL in the model (round 13): C17_editor_no_panic_emacs - for helpers that do not panic, indent size <= 255, "
+        "unproved": ["C17_editor_no_panic_statement (as written not provable: completer start off a boundary, D43; proved with strengthened hypotheses: C17_editor_no_panic_emacs unconditionally, C17_editor_no_panic_both for both modes, no open hypothesis)"],
+        "level_text": "BOTH MODES, NO OPEN HYPOTHESIS (round 16): C17_editor_no_panic_both - ViPreKeeps is proved (C17_vi_pre_keeps: next_cmd changes the log by marker operations only, MkK/em_mk; search loop invariant BotGood = the bottom mark entries replay to a prefix of the backup, kept by update incl. the D49 merge; completion loop invariant AboveNB). The text that follows describes rounds 13-15 and is kept for the route taken. EMACS MODE, UNCONDITIONAL in the model (round 13): C17_editor_no_panic_emacs - for helpers that do not panic, indent size <= 255, "
                       "a completer start on a character boundary at or before the cursor, a stable segmenter and acceptable bindings (BindsI), if readline "
                       "ends with the panic outcome then its final state is a D43 state; no open obligation: C17_open_emacs instantiates C17_Open with the "
                       "concrete cross-step invariant J = UndoLogInv (the undo stack replays to the line), carried by a sixth structural pass (LogK / em_log, "
@@ -151,7 +159,8 @@ PROPS = {
     "C13": {
         "module": "Rl.Props.C13",
         "targets": [{"name": "ed13", "gen": "ed13", "header_tokens": 9},
-                    {"name": "direct", "gen": "direct", "header_tokens": 4}],
+                    {"name": "direct", "gen": "direct", "header_tokens": 4},
+                    {"name": "hl", "gen": "hl", "header_tokens": 1}],
         "shards": {"quick": 8, "thorough": 16},
         "rule": "direct: the non-terminal clause (reads from a pipe with a validator: the returned string is the accumulated "
                 "text of a Valid verdict; pending Incomplete / Invalid text at end of input is NOT returned) - same target as C18. "
@@ -160,7 +169,13 @@ PROPS = {
                 "Enter / C-j / brackets sprinkled at arbitrary points and cursor positions, inside searches and completions, with "
                 "hints, history and initial text. Oracle on the implementation: every Enter callback is checked against the verdict "
                 "on the text the handler saw (valid => that text is returned; incomplete => line break at the cursor; invalid with "
-                "message => text and cursor unchanged; error => propagated), and a returned line is valid and is what the validator saw.",
+                "message => text and cursor unchanged; error => propagated), and a returned line is valid and is what the validator saw. "
+                "hl: MatchingBracketHighlighter through highlight_char / highlight: exhaustive lines of length 1..4 (thorough ..5) over "
+                "{ ( ) [ x e-acute } x every cursor byte position 0..len+1, the same line highlighted; plus random lines (<=12, thorough "
+                "<=24 chars, all three bracket kinds, 1-4 byte characters) with 1-4 call pairs on one highlighter, forced refreshes, and "
+                "lines edited between the two calls (stale remembered position, also past the end: panics are observations). Spec "
+                "column: the partner prescribed by counting (Rl.Spec.Highlight.partner); no oracle when the remembered byte is not "
+                "that bracket in the highlighted line.",
         "trivial_impl_regex": r"=> .*",
         "exhaustive": {"quick": False, "thorough": False},
         "trusted_base": ["the scripted validator is a function of the text only (same table on both sides)",
